@@ -138,6 +138,12 @@ func roundTripCase(c *core.Ctx, idx int, mode int) {
 		if j == 2 {
 			describe(tc.p, tc.typ)
 		}
+		if j == 3 || j == 7 {
+			// asking for the codec the type would have under a tag option is a question, not a setting
+			opt := []string{"flat", "proto", "intern", "flattime"}[(idx+j)%4]
+			core.Guard(func() { tc.p.CodecForTypeWithTag(tc.typ, opt) })
+			core.Guard(func() { sharedInst(tc).CodecForTypeWithTag(tc.typ, opt) })
+		}
 		if j == 5 {
 			describe(sharedInst(tc), tc.typ)
 		}
